@@ -35,4 +35,14 @@ theorem prox_l2_conj_eq (w σ n t x : K) : prox_l2_prox_conj w n x σ t = l2Conj
     | (simp only [prox_l2_prox_conj, l2ConjProxEl]; ring_nf)
     | (simp only [prox_l2_prox_conj, l2ConjProxEl]; norm_num; ring_nf)
 
+theorem value_l1_eq (w t x : K) : prox_l1_value w x t = l1ValEl w t x := by
+  first
+    | rfl
+    | (simp only [prox_l1_value, l1ValEl]; ring_nf)
+
+theorem value_l2_eq (w t x : K) : prox_l2_value w x t = l2ValEl w t x := by
+  first
+    | rfl
+    | (simp only [prox_l2_value, l2ValEl]; ring_nf)
+
 end M.SrcL
